@@ -11,7 +11,8 @@
 //    {"e":"Cfg",signal,rules,dflt} {"e":"Get",scope,"eq":[h..]} {"e":"Emit","h","appeared":bool}
 //    and validated by spec/ScopeConfigTrace.tla.
 //
-// Concretisation (struct Conc, 5 variants by seed): scope name token N -> "lib"+N | "io.example."+lower(N) |
+// Concretisation (struct Conc, 5 variants by seed): the EMPTY name / version / schema stays the empty string
+// (Get*("", ..)); scope name token N -> "lib"+N | "io.example."+lower(N) |
 // mutually prefixing names | two tables of RELATED identities whose name+version+schema concatenations
 // coincide; version
 // and schema as given ("s" -> https://example.test/s), attr "a" -> {"scope.attr": "a"}; the strings
@@ -66,6 +67,8 @@ struct Conc
   {
     static const char *abc[6] = {"a", "ab", "abc", "b", "bc", "c"};
     static const char *db[6]  = {"db", "db2", "db2.1", "d", "b2", "db21"};
+    if (n.empty())  // no name given: Get*("") in every variant
+      return "";
     if (variant == 0)
       return "lib" + n;
     if (variant == 2)  // names that are prefixes of one another
@@ -99,6 +102,7 @@ struct Conc
   }
 };
 static const int kConcVariants = 5;
+static const char *kLoggerName  = "c19-logger";
 
 template <class Config>
 std::unique_ptr<sc::ScopeConfigurator<Config>> build_configurator(const json &rules, bool dflt, const Conc &cc)
@@ -246,7 +250,7 @@ struct Sut
       std::vector<std::pair<std::string, std::string>> attrs;
       if (!s.attr.empty())
         attrs.emplace_back("scope.attr", s.attr);
-      loggers.push_back(lp->GetLogger("c19-logger", nb.view(), vb.view(), sb.view(),
+      loggers.push_back(lp->GetLogger(kLoggerName, nb.view(), vb.view(), sb.view(),
                                       opentelemetry::common::KeyValueIterableView<decltype(attrs)>(attrs)));
     }
     scopes.push_back(s);
@@ -286,7 +290,10 @@ struct Sut
     if (fresh.size() > 1)
       return "many";
     const Scope &s = scopes[h];
-    if (fresh[0].what != uniq || fresh[0].name != cc.name(s.name) || fresh[0].version != cc.version(s.version) ||
+    // (a logger requested without library name: the SDK documents the logger name as the scope name;
+    // the statement does not say, both are taken)
+    bool name_ok = fresh[0].name == cc.name(s.name) || (signal == "logs" && s.name.empty() && fresh[0].name == kLoggerName);
+    if (fresh[0].what != uniq || !name_ok || fresh[0].version != cc.version(s.version) ||
         fresh[0].schema != cc.schema(s.schema))
       return "wrongscope";
     return "yes";
@@ -353,7 +360,8 @@ int run_record(uint64_t seed, int executions, int ops)
     std::vector<Scope> pool;
     while (pool.size() < 14)
     {
-      Scope s{names[rng.below(6)], versions[rng.below(3)], schemas[rng.below(3)],
+      // (one identity in seven has no name)
+      Scope s{rng.below(7) == 0 ? "" : names[rng.below(6)], versions[rng.below(3)], schemas[rng.below(3)],
               (signal == "logs" && rng.below(4) == 0) ? "a" : ""};
       bool dup = false;
       for (auto &p : pool)
